@@ -10,6 +10,24 @@ from props import trace_run
 from vf.core import Ctx
 
 
+
+def disc07(sc: dict, tr: dict, clause: str, pos: int) -> str:
+    f = sc.get('fault') or {}
+    if clause == 'C07_WithdrawnNotRemoved':
+        # finding D27: an instance closed while the goodbye sequence of a service it has just unregistered is still running
+        t = 0
+        unregs = []
+        for st in sc['steps']:
+            if st['op'] == 'at':
+                t = st['t']
+            elif st['op'] == 'unreg':
+                unregs.append((t, st['svc']['host']))
+            elif st['op'] == 'close' and any(h == st['host'] and 0 <= t - tu < 250 for (tu, h) in unregs):
+                return 'close-cuts-goodbyes-of-unregister'
+    if sc.get('model'):
+        return 'single-loss' if f.get('drop_match') else 'fault-free'
+    return 'fault-free' if not f else ('single-loss' if f.get('drop') and not f.get('max_delay') else 'delay-dup-loss')
+
 def run_scenarios(ctx: Ctx, base: List[dict], drops_per: int, seeds_per: int, extra_faulty: List[dict] = ()) -> List[dict]:  # type: ignore[assignment]
     # 1. fault-free runs (give the number of datagrams of each scenario)
     ref = trace_run.record_all('props.linkfam', 'Recorder', base, 16 if ctx.thorough else 8)
@@ -49,12 +67,7 @@ def run_scenarios(ctx: Ctx, base: List[dict], drops_per: int, seeds_per: int, ex
     slim = [{'id': t['id'], 'events': t['events']} for t in traces]
     verdicts, states, trans = trace_run.validate('Trace_Link', slim, {}, batch=400, par=4)
 
-    def disc(sc: dict, tr: dict, clause: str, pos: int) -> str:
-        f = sc.get('fault') or {}
-        if sc.get('model'):
-            return 'single-loss' if f.get('drop_match') else 'fault-free'
-        return 'fault-free' if not f else ('single-loss' if f.get('drop') and not f.get('max_delay') else 'delay-dup-loss')
-    res = trace_run.triage(ctx, 'C07', scenarios, traces, verdicts, disc)
+    res = trace_run.triage(ctx, 'C07', scenarios, traces, verdicts, disc07)
     cov = ctx.coverage
     cov.update({'evaluations': len(traces), 'distinct_nontrivial': len({t['id'] for t in traces if any(e['ev'] == 'cb' for e in t['events'])}),
                 'rule': 'scenarios of 2-5 hosts, 1-6 services of 1-3 types, 1-3 browsers started before / during / after registration, '
@@ -152,5 +165,5 @@ def replay(ctx: Ctx, path: str) -> None:
     sc = json.load(open(path))['replay']['scenario']
     traces = trace_run.record_all('props.linkfam', 'Recorder', [sc], 1)
     verdicts, _, _ = trace_run.validate('Trace_Link', [{'id': t['id'], 'events': t['events']} for t in traces], {}, batch=10, par=1)
-    trace_run.triage(ctx, 'C07', [sc], traces, verdicts)
+    trace_run.triage(ctx, 'C07', [sc], traces, verdicts, disc07)
     ctx.coverage.update({'evaluations': 1, 'distinct_nontrivial': 2, 'rule': 'replay', 'samples': [sc['id']]})
